@@ -78,6 +78,10 @@ fn is_path(e: &E) -> bool {
     }
 }
 
+fn is_num_key(v: &V) -> bool {
+    matches!(v, V::I(_)) || matches!(v, V::F(b) if !f64::from_bits(*b).is_nan())
+}
+
 fn spec_key_lt(a: &V, b: &V) -> bool {
     match (a, b) {
         (V::Null, V::Null) => false,
@@ -390,6 +394,12 @@ fn map_oracle(
         "clear" => expected.clear(),
         "sort" => {
             // ordered, stable permutation of the entries (spec order on keys)
+            let kinds_ok = {
+                let ks: Vec<&V> = before.iter().map(|(k, _)| k).filter(|k| !matches!(k, V::Null)).collect();
+                ks.iter().all(|k| is_num_key(k)) || ks.iter().all(|k| matches!(k, V::S(_)))
+            };
+            // keys of mixed kinds: ValueKey::partial_cmp calls unrelated keys Equal (finding F-C14-5)
+            let f5 = if kinds_ok { None } else { Some("F-C14-5") };
             let mut idx: Vec<usize> = (0..before.len()).collect();
             idx.sort_by(|a, b| {
                 if spec_key_lt(&before[*a].0, &before[*b].0) {
@@ -400,10 +410,22 @@ fn map_oracle(
                     std::cmp::Ordering::Equal
                 }
             });
-            expected = idx.iter().map(|i| before[*i].0.canon()).collect();
-            for w in after.windows(2) {
-                if spec_key_lt(&w[1].0, &w[0].0) {
-                    fail("sort_sorted_perm_stable", format!("map.sort left {} before {}", w[0].0.canon(), w[1].0.canon()), None);
+            if kinds_ok {
+                expected = idx.iter().map(|i| before[*i].0.canon()).collect();
+            } else {
+                // only "a permutation" is required to hold here …
+                let (mut b, mut a) = (keys_text(before), keys_text(after));
+                b.sort();
+                a.sort();
+                expected = if a == b { keys_text(after) } else { keys_text(before) };
+            }
+            // … and "ordered": no key before a strictly smaller one
+            'outer: for i in 0..after.len() {
+                for j in i + 1..after.len() {
+                    if spec_key_lt(&after[j].0, &after[i].0) {
+                        fail("sort_sorted_perm_stable", format!("map.sort left {} before {}", after[i].0.canon(), after[j].0.canon()), f5);
+                        break 'outer;
+                    }
                 }
             }
         }
